@@ -388,6 +388,7 @@ def _shape_models() -> List[Tuple[str, str]]:
             + cls("Holder", None, [], [("nothing", "Abstract_nothing"), ("code", "Code"), ("codes", "Optional[List[Hardly_something]]")]),
         )
     )
+<<<<<<< HEAD
     # Constant sets at their smallest and per type of the items: a set WITHOUT items (the emitters join the items with
     # ",\n" and append a trailing comma: Go wrote ``{\n\t,\n}``), one and two items of every primitive type (the Go map
     # literal needs ``key: struct{}{}`` for every type) and of an enumeration; the primitive constants.
@@ -428,6 +429,32 @@ def _shape_models() -> List[Tuple[str, str]]:
         lines += ["Text_%d: str = constant_str(value=%s, description=%s)" % (k, lit(text), lit("Hold the text %d." % k)), ""]
     lines += ["All_texts: Set[str] = constant_set(values=[%s])" % ", ".join(lit(text) for text in NASTY_LITERALS), ""]
     r.append(("nasty-literals", _MODEL_HEADER + "\n".join(lines)))
+=======
+    # An implementation-specific class, alone and held by another class: every target has to write the snippets it
+    # demands (the generated modules refer to what the snippets define)
+    impl = '@implementation_specific\nclass Special_thing(DBC):\n    """Represent a special thing."""\n\n    ident: str\n    """Hold ident."""\n\n    def __init__(self, ident: str) -> None:\n        self.ident = ident\n\n\n'
+    r.append(("implementation-specific-class", _MODEL_HEADER + impl + cls("Holder", None, [], [("thing", "Special_thing"), ("amount", "int")])))
+    # Integer constants and set literals at the edges of the targets' integer types: above int32 (Java needs the ``L``
+    # suffix), the largest int64, and -- in models of their own, since a target may refuse them -- above int64 and
+    # above uint64 (no integer literal of C# / Java denotes them)
+    def ints(name: str, values: Sequence[int]) -> str:
+        return f'{name}: Set[int] = constant_set(\n    values=[{", ".join(str(v) for v in values)}],\n    description="Some integers.",\n)\n\n\n'
+
+    def one(name: str, value: int) -> str:
+        return f'{name}: int = constant_int(\n    value={value},\n    description="Some integer.",\n)\n\n\n'
+
+    holder = cls("Holder", None, [], [("amount", "int")])
+    r.append(
+        (
+            "integer-constants-in-int64",
+            _MODEL_HEADER + one("Small_one", 5) + one("Above_int32", 3000000000) + one("Largest_int64", 2**63 - 1)
+            + ints("Some_ints", [0, 7, 2147483648, 2**63 - 1]) + holder,
+        )
+    )
+    r.append(("integer-constant-above-int64", _MODEL_HEADER + one("Above_int64", 2**63) + holder))
+    r.append(("integer-constant-above-uint64", _MODEL_HEADER + one("Above_uint64", 2**64) + holder))
+    r.append(("integer-set-literal-above-uint64", _MODEL_HEADER + ints("Big_ints", [1, 2**64]) + holder))
+>>>>>>> 1ace8bb9e1b7b30e3dfe90e4031e5e59c36abe67
     return r
 
 
@@ -1026,6 +1053,139 @@ def balance(
 
 # ---------------------------------------------------------------------------------------
 # Further specific judges
+
+def python_bound_names(tree: ast.AST) -> set:
+    """Every name bound ANYWHERE in the module (any scope): definitions, imports, assignment / loop / with / except /
+    comprehension targets, arguments, ``global`` / ``nonlocal`` declarations."""
+    bound = set()
+    for node in ast.walk(tree):
+        if isinstance(node, (ast.FunctionDef, ast.AsyncFunctionDef, ast.ClassDef)):
+            bound.add(node.name)
+        elif isinstance(node, ast.Name) and isinstance(node.ctx, (ast.Store, ast.Del)):
+            bound.add(node.id)
+        elif isinstance(node, ast.arg):
+            bound.add(node.arg)
+        elif isinstance(node, (ast.Import, ast.ImportFrom)):
+            for alias in node.names:
+                bound.add((alias.asname or alias.name).split(".")[0])
+        elif isinstance(node, ast.ExceptHandler) and node.name:
+            bound.add(node.name)
+        elif isinstance(node, (ast.Global, ast.Nonlocal)):
+            bound.update(node.names)
+        elif isinstance(node, (ast.MatchAs, ast.MatchStar)) and node.name:
+            bound.add(node.name)
+    return bound
+
+
+def python_undefined_names(text: str) -> List[Tuple[int, str]]:
+    """``(line, name)`` of the names which are read somewhere in the module but bound nowhere in it (in no scope) and
+    are no builtins: the Python analogue of an unresolved symbol. Scope-insensitive on purpose: it never blames a
+    name that some scope of the module binds, so a reported name is undefined on every path that evaluates it."""
+    import builtins
+
+    try:
+        tree = ast.parse(text)
+    except (SyntaxError, ValueError):
+        return []
+    if any(isinstance(n, ast.ImportFrom) and any(a.name == "*" for a in n.names) for n in ast.walk(tree)):
+        return []
+    bound = python_bound_names(tree)
+    known = bound | set(dir(builtins)) | {"__file__", "__name__", "__doc__", "__path__", "__spec__", "__package__"}
+    out = []
+    seen = set()
+    for node in ast.walk(tree):
+        if isinstance(node, ast.Name) and isinstance(node.ctx, ast.Load) and node.id not in known and node.id not in seen:
+            seen.add(node.id)
+            out.append((node.lineno, node.id))
+    return sorted(out)
+
+
+def python_tree_problems(out: pathlib.Path) -> List[Dict[str, str]]:
+    """Cross-module references of a generated Python tree: ``import <pkg>.<module> as <alias>`` followed by
+    ``<alias>.<name>`` must name something that ``<pkg>/<module>.py`` of the same tree binds at its top level."""
+    problems: List[Dict[str, str]] = []
+    trees: Dict[str, ast.AST] = {}
+    for p in sorted(pathlib.Path(out).rglob("*.py")):
+        try:
+            trees[str(p.relative_to(out))] = ast.parse(p.read_text(encoding="utf-8"))
+        except (SyntaxError, ValueError, UnicodeDecodeError):
+            continue
+
+    def top_level(tree: ast.AST) -> set:
+        names = set()
+        for node in tree.body:  # type: ignore[attr-defined]
+            for sub in ast.walk(node) if not isinstance(node, (ast.FunctionDef, ast.AsyncFunctionDef, ast.ClassDef)) else [node]:
+                if isinstance(sub, (ast.FunctionDef, ast.AsyncFunctionDef, ast.ClassDef)):
+                    names.add(sub.name)
+                elif isinstance(sub, ast.Name) and isinstance(sub.ctx, ast.Store):
+                    names.add(sub.id)
+                elif isinstance(sub, (ast.Import, ast.ImportFrom)):
+                    for alias in sub.names:
+                        names.add((alias.asname or alias.name).split(".")[0])
+        return names
+
+    exported = {rel: top_level(tree) for rel, tree in trees.items()}
+    reported = set()
+    for rel, tree in trees.items():
+        aliases: Dict[str, str] = {}
+        for node in ast.walk(tree):
+            if isinstance(node, ast.Import):
+                for alias in node.names:
+                    target = alias.name.replace(".", "/") + ".py"
+                    if alias.asname and target in exported:
+                        aliases[alias.asname] = target
+        if not aliases:
+            continue
+        rebound = {n.id for n in ast.walk(tree) if isinstance(n, ast.Name) and isinstance(n.ctx, ast.Store)} | {
+            a.arg for a in ast.walk(tree) if isinstance(a, ast.arg)
+        }
+        for node in ast.walk(tree):
+            if (
+                isinstance(node, ast.Attribute) and isinstance(node.value, ast.Name) and isinstance(node.value.ctx, ast.Load)
+                and node.value.id in aliases and node.value.id not in rebound
+            ):
+                target = aliases[node.value.id]
+                if node.attr not in exported[target] and (target, node.attr) not in reported:
+                    reported.add((target, node.attr))
+                    problems.append(
+                        {
+                            "file": rel,
+                            "sig": "C20:file:python:unresolved-attribute",
+                            "what": "line %d: %s.%s is referenced, but %s binds no %r at its top level"
+                            % (node.lineno, node.value.id, node.attr, target, node.attr),
+                        }
+                    )
+    return problems
+
+
+_QUOTED_RE = re.compile(r'"(?:\\.|[^"\\])*"|\'(?:\\.|[^\'\\])*\'')
+_DEC_LITERAL_RE = re.compile(r"(?<![\w.$])([0-9][0-9_]*)([lLuU]{0,2})(?![\w.$])")
+
+
+def integer_literal_problems(lang: str, skeleton: str) -> List[str]:
+    """Decimal integer literals of the code (comments and quoted literals removed) which the lexical grammar of the
+    language has no type for -- a compile-time error at the token level:
+
+    * Java (JLS 3.10.1): without suffix at most 2147483648, with ``L`` at most 9223372036854775808 (the largest values
+      only as the operand of the unary minus, which we do not track: we allow them);
+    * C# (ECMA-334 6.4.5.3): the type is the first of int, uint, long, ulong which holds the value; a value above
+      18446744073709551615 is error CS1021.
+    """
+    if lang not in ("java", "cs"):
+        return []
+    code = _QUOTED_RE.sub('""', skeleton)
+    out: List[str] = []
+    for m in _DEC_LITERAL_RE.finditer(code):
+        digits, suffix = m.group(1).replace("_", ""), m.group(2).lower()
+        value = int(digits)
+        if lang == "java":
+            limit = 2**63 if "l" in suffix else 2**31
+            if "u" in suffix or value > limit:
+                out.append("integer number too large (or ill-suffixed): %s" % m.group(0))
+        else:
+            if value > 2**64 - 1:
+                out.append("integral constant is too large: %s" % m.group(0))
+    return out
 # ---------------------------------------------------------------------------------------
 
 
@@ -1225,6 +1385,8 @@ def _judge_file(
                 "ast.parse: %s at line %s: %r"
                 % (exc, line, (getattr(exc, "text", "") or "")[:160]),
             )
+        for line, name in python_undefined_names(text)[:1]:
+            add("C20:file:python:undefined-name", "line %d: the name %r is read but bound nowhere in the module" % (line, name))
         dumped = python_skeleton(text)
         if dumped is not None:
             _SKELETONS[key] = hashlib.sha1(dumped.encode("utf-8", "surrogatepass")).digest()
@@ -1253,6 +1415,8 @@ def _judge_file(
             else:
                 sig = "C20:file:%s:balance:%s" % (_SIG_LANG[lang], kind)
             add(sig, "line %d: %s" % (line, detail))
+        for detail in integer_literal_problems(lang, info["skeleton"])[:1]:
+            add("C20:file:%s:integer-literal" % _SIG_LANG[lang], detail)
         if lang == "cs":
             for line, detail in csharp_doc_comment_problems(text)[:1]:
                 add("C20:file:csharp:doc-xml", "doc comment starting at line %d: %s" % (line, detail))
@@ -1380,6 +1544,8 @@ def check_tree(
         if p.suffix == ".java":
             has_java = True
         problems.extend(check_file_without_compiler(target, p, rel))
+    if target == "python":
+        problems.extend(python_tree_problems(out))
     if has_java and use_compilers:
         by_key, trouble = _javac_problems([(0, out)], pathlib.Path(work) / "javac")
         problems.extend(by_key.get(0, []))
